@@ -2,6 +2,8 @@
 """Copy confirmed seeded changes into /verif/seeded/<P>/<k>/ and write /verif/seeded/MATRIX.md."""
 import json, os, shutil, sys, glob
 src = sys.argv[1] if len(sys.argv) > 1 else "/tmp/seed_out"
+prefix = sys.argv[2] if len(sys.argv) > 2 else ""   # e.g. "r2-" for a second round
+matrix = "/verif/seeded/MATRIX%s.md" % (("-" + prefix.strip("-")) if prefix else "")
 rows = []
 for rf in sorted(glob.glob(os.path.join(src, "results", "*.json"))):
     try:
@@ -10,7 +12,7 @@ for rf in sorted(glob.glob(os.path.join(src, "results", "*.json"))):
         continue
     P, k = r["property"], r["k"]
     d = os.path.join(src, P, k)
-    out = os.path.join("/verif/seeded", P, k)
+    out = os.path.join("/verif/seeded", P, prefix + k)
     os.makedirs(out, exist_ok=True)
     for f in ("patch.diff", "demonstration", "meta.json"):
         if os.path.exists(os.path.join(d, f)):
@@ -22,8 +24,8 @@ for rf in sorted(glob.glob(os.path.join(src, "results", "*.json"))):
         if l.startswith("VIOLATION"):
             obl = l.split("obligation=")[-1].split(" ")[0]
             break
-    rows.append((P, k, r.get("title", ""), r.get("confirmed"), r.get("caught"), obl))
-with open("/verif/seeded/MATRIX.md", "w") as f:
+    rows.append((P, prefix + k, r.get("title", ""), r.get("confirmed"), r.get("caught"), obl))
+with open(matrix, "w") as f:
     f.write("# Seeded changes vs. registered quick checks\n\n")
     f.write("Each row: a change produced by a fresh sub-agent from the property text alone (patch.diff, demonstration, meta.json in the directory), confirmed = applies + 156 tests pass + demonstration fails with the patch and passes without; caught = the property's quick check exits 1 with a VIOLATION line on /repo with the patch applied.\n\n")
     f.write("| property | k | change | confirmed | caught | first failing obligation |\n|---|---|---|---|---|---|\n")
@@ -31,4 +33,4 @@ with open("/verif/seeded/MATRIX.md", "w") as f:
         f.write(f"| {P} | {k} | {t[:110]} | {'yes' if c else 'NO'} | {'**yes**' if g else 'no'} | `{o}` |\n")
     n = len(rows); ng = sum(1 for r in rows if r[4]); nc = sum(1 for r in rows if r[3])
     f.write(f"\n{n} changes, {nc} confirmed, {ng} caught.\n")
-print(open("/verif/seeded/MATRIX.md").read())
+print(open(matrix).read())
